@@ -274,7 +274,7 @@ int main(int argc, char **argv) {
     reg_extra();
 #else
     reg_perm(); reg_sponge(); reg_aead(); reg_mac(); reg_kdf(); reg_isap(); reg_prng();
-    reg_masked(); reg_cpp(); reg_misc(); reg_abi();
+    reg_masked(); reg_cpp(); reg_misc(); reg_abi(); reg_ct();
 #endif
 
     // read the whole plan
